@@ -39,6 +39,8 @@ def teardown(ctx):
 
 
 def gen(rng, tier, shard, nshards):
+    if shard == 0:
+        yield {'kind': 'ambient-suite'}
     n = 110 if tier == 'quick' else 1100
     forced = [dict(pdim=3), dict(pdim=1, dim=4), dict(pdim=2, kvcls='fullmult'), dict(pdim=1, kvcls='unclamped'),
               dict(pdim=2, normalize=False, lohi=(-3.0, 7.5)), dict(pdim=1, kvcls='unclamped_endrep', maxdeg=4, mindeg=2),
@@ -69,6 +71,10 @@ def scale_of_shape(S):
 
 
 def check(case, ctx):
+    if case.get('kind') == 'ambient-suite':
+        from .. import ambient
+        ctx.nontriv(True)
+        return ambient.run_repo_suite(ctx, None)
     sd = case['sd']
     rng = random.Random(case['seed'])
     pdim = sd['pdim']
